@@ -32,10 +32,14 @@ ASSUMPTIONS = [
     'syntaxes: only exception classes are compared',
 ]
 
+# variables spelled like tag and continuation words
+WORD_NAMES = ['else', 'elif', 'except', 'finally', 'in', 'if', 'var', 'end',
+              'try']
 CFG = gen.Config(kinds=['text', 'var', 'var', 'ent', 'call', 'if', 'if',
                         'unless', 'in', 'in', 'with', 'let', 'try', 'comment',
                         'boom', 'sub', 'raise', 'return'],
-                 max_depth=3, max_items=3, literals=False)
+                 max_depth=3, max_items=3, literals=False,
+                 var_names=gen.PLAIN_NAMES + WORD_NAMES)
 # literal text that is not (the beginning of) a tag in any of the three
 # syntaxes, so that the three printings stay equivalent: near-tag fragments
 # without ';' (which could complete an entity) and without '(' and '#'
